@@ -43,6 +43,7 @@ def cluster(monitors, p_events, view_fields=()):
 
 PROPS = {
     "C01": cluster(["C01"], ["*"], ["commit", "log", "dlog", "dcommit", "term", "dterm"]),  # the C01 theorems rest on every guard of P
+    "C08": cluster(["C08"], ["rissue", "rstart", "rhback", "rresp", "rstate"], []),
     "C02": cluster(["C02"], ["campaign", "grant", "win", "stepdown"], ["role", "vote"]),
     "C03": cluster(["C03"], ["grant", "campaign", "win", "claim"], ["vote"]),
     "C04": cluster(["C04"], ["commitleader", "commitapp", "commithb", "commitclaim", "commitsnap", "ackcommitted", "sendhb", "claim"], ["commit"]),
